@@ -12,7 +12,10 @@ EXPR = {"int": "7", "float": "2.5", "str": "'hi'", "bool": "True", "none": "None
         "ellipsis": "...", "bytes": "b'ab'", "complex": "2j",
         # repetition by literal counts, small and absurdly large (nothing is executed: the analysis must not try to)
         "lambdaarity": "(lambda z: z)(n, 2)",          # an anonymous function called with one argument too many
-        "tuplerep": "(1, n) * 3", "hugerep": "(1, 'a') * 99999999999999999999", "strrep": "'ab' * 1000000000000"}
+        "tuplerep": "(1, n) * 3", "hugerep": "(1, 'a') * 99999999999999999999", "strrep": "'ab' * 1000000000000",
+        # subscripts by signed and out-of-range literals (the program would fail at run time: the analysis must not)
+        "tupleneg": "(1, n)[-3]", "tuplelast": "(1, n)[-1]", "tuplefar": "(1, n)[7]", "emptyneg": "()[-1]",
+        "dictneg": "{-1: n}[-1]", "strneg": "s[-9]"}
 STMT = {"assign": "v = {E}\nprint(v)", "augassign": "acc = {E}\nacc += {E}\nprint(acc)", "exprstmt": "print({E})",
         "if": "if {E}:\n    print(1)\nelse:\n    print(2)", "while": "k = 0\nwhile k < 2:\n    v = {E}\n    k += 1\n    print(v)",
         "for": "for i in xs:\n    v = {E}\n    print(v, i)", "defcall": "def f(a):\n    return {E}\nprint(f(1))",
